@@ -189,8 +189,15 @@ def to_case(ob):
     if clause == "__init__":
         return [{"check": "octave_rejects", "low_hz": v, "expect": "ValueError"} for v in (0.0, -1.0, -20.0)] + \
                [{"check": "octave_rejects", "low_hz": v, "expect": "ok"} for v in (1e-3, 20.0)]
+    from pyvc.solve import model_real
     plist = {"linear": [{"low_hz": 0.0, "slope_hz": 1.0}, {"low_hz": 20.0, "slope_hz": 3.7}, {"low_hz": -100.0, "slope_hz": 1e-3}],
-             "octave": [{"low_hz": 20.0}, {"low_hz": 1e-3}, {"low_hz": 440.0}], "mel": [{}], "bark": [{}]}[kind]
+             "octave": [{"low_hz": 20.0}, {"low_hz": 1e-3}, {"low_hz": 5e-11}, {"low_hz": 440.0}], "mel": [{}], "bark": [{}]}[kind]
+    # parameters of the solver's (candidate) model first
+    lo, sl = model_real(ob.model, "low_hz"), model_real(ob.model, "slope_hz")
+    if kind == "octave" and lo is not None and 0 < lo < 1e6:
+        plist.insert(0, {"low_hz": lo})
+    if kind == "linear" and lo is not None and sl is not None and sl > 0 and abs(lo) < 1e6 and 1e-6 < sl < 1e6:
+        plist.insert(0, {"low_hz": lo, "slope_hz": sl})
     grids = ["log", "lin"] + (["breaks"] if kind == "bark" else [])
     out = []
     for params in plist:
